@@ -584,6 +584,17 @@ fn create_patch<'repo>(
         patchname
     };
 
+    // With --replace only an unapplied patch of the same name is replaced; any other
+    // existing patch of that name (or differing from it only by case) is in the way.
+    if let Some(colliding_patchname) = stack.collides(&patchname) {
+        let replaceable = replace_flag
+            && colliding_patchname == &patchname
+            && stack.unapplied().contains(colliding_patchname);
+        if !replaceable {
+            return Err(anyhow!("patch `{colliding_patchname}` already exists"));
+        }
+    }
+
     let author_date = author_date.and_then(|date| gix::date::Time::parse_time(&date).ok());
     let author = if let (Some(name), Some(email), Some(time)) =
         (author_name.as_deref(), author_email.as_deref(), author_date)
